@@ -189,7 +189,20 @@ func registerTimeStubs(sh *Shared) {
 		e.addPC(e.pool.BVCmp("bvsle", v.t, e.pool.BV(1<<50, 64)))
 		return v
 	})
-	reg("(time.Time).Format", func(fr *frame, args []value) value { return "20260101000000" })
+	// Formatting a timestamp: constant by default; after tickingTimestamps(true) the wall clock may
+	// cross a second boundary between any two readings (a case split per formatted timestamp)
+	reg("(time.Time).Format", func(fr *frame, args []value) value {
+		if fr.i.tsTicking {
+			if fr.i.chooseNamed("env.second-boundary", 2) == 1 {
+				fr.i.tsSecond++
+			}
+		}
+		return fmt.Sprintf("202601010000%02d", fr.i.tsSecond%60)
+	})
+	reg(mainPath+".tickingTimestamps", func(fr *frame, args []value) value {
+		fr.i.tsTicking = args[0].(bool)
+		return nil
+	})
 	reg("(time.Duration).String", func(fr *frame, args []value) value {
 		if _, ok := args[0].(sym); ok {
 			return "‹duration›"
